@@ -485,6 +485,10 @@ func splitHostURI(host, uri []byte) ([]byte, []byte, []byte) {
 		return bytestr.StrHTTP, host, uri
 	}
 
+	if !bytes.HasPrefix(path, bytestr.StrSlashSlash) {
+		// "scheme:" not followed by "//", e.g. "a:b": there is no authority to split off
+		return bytestr.StrHTTP, host, uri
+	}
 	uri = path[len(bytestr.StrSlashSlash):]
 	n := bytes.IndexByte(uri, '/')
 	if n < 0 {
